@@ -90,6 +90,12 @@ def materialise_loc(sb, kind, tag, conf_dir):
             os.makedirs(p, exist_ok=True)
             return p, p
         return p, 'MISSING'
+    if kind in ('abs-percent-existing', 'abs-percent2-existing'):
+        # (environment values only) a directory with `%` / `%%` in its name: an environment override is used as it stands - the
+        # `%` interpolation of the configuration-file reader has no business with it
+        p = os.path.join(sb.root, 'stores', ('50%-' if kind == 'abs-percent-existing' else 'a%%b-') + tag)
+        os.makedirs(p, exist_ok=True)
+        return p, p
     if kind == 'abs-existing-file':
         # a location that exists but is not a directory (e.g. a store kept in one file, or a device): it exists, so it is used as given
         p = os.path.join(sb.root, 'stores', tag + '.store')
@@ -350,14 +356,23 @@ def _loc_kind(case, key, src, first):
 # ---- strategies ------------------------------------------------------------------------------------------------------------
 _TRANSPORTS = st.sampled_from(['unix:///run/nfd/nfd.sock', 'tcp://127.0.0.1:6363', 'udp4://10.0.0.1', 'tcp6://[::1]:7000',
                                'unix:///tmp/x.sock', 'tcp://router.example'])
+# a configuration FILE may name a transport this library has no face for (written for another NDN client): reading the
+# configuration takes it as text - it is refused only when a face is made from it, and never when the environment overrides it
+_TRANSPORTS_FILE = st.one_of(_TRANSPORTS, _TRANSPORTS, st.sampled_from(['wss://example.net:9696/ws', 'ws://localhost:9696', '/run/nfd/nfd.sock']))
+# an ENVIRONMENT override may contain `%` (IPv6 zone id, directory names)
+_TRANSPORTS_ENV = st.one_of(_TRANSPORTS, _TRANSPORTS, st.sampled_from(['udp6://[fe80::1%eth0]:6363', 'unix:///tmp/100%%/nfd.sock',
+                                                                          'tcp://[fe80::2%25lo]', 'wss://example.net/ws']))
 
 
-def _store(schemes):
-    return st.fixed_dictionaries({'scheme': st.sampled_from(schemes), 'loc': st.sampled_from(LOC_KINDS), 'bare': st.booleans()})
+def _store(schemes, extra_locs=()):
+    return st.fixed_dictionaries({'scheme': st.sampled_from(schemes), 'loc': st.sampled_from(LOC_KINDS + list(extra_locs)), 'bare': st.booleans()})
 
 
 _PIB = _store(['pib-sqlite3', 'pib-sqlite3', 'pib-memory'])
 _TPM = _store(['tpm-file', 'tpm-file', 'tpm-osxkeychain', 'tpm-x'])
+_ENV_LOCS = ('abs-percent-existing', 'abs-percent2-existing')
+_PIB_ENV = _store(['pib-sqlite3', 'pib-sqlite3', 'pib-memory'], _ENV_LOCS)
+_TPM_ENV = _store(['tpm-file', 'tpm-file', 'tpm-osxkeychain', 'tpm-x'], _ENV_LOCS)
 
 
 @st.composite
@@ -365,7 +380,7 @@ def _filespec(draw):
     present = draw(st.lists(st.sampled_from(KEYS), unique=True, max_size=3))
     values = {}
     if 'transport' in present:
-        values['transport'] = draw(_TRANSPORTS)
+        values['transport'] = draw(_TRANSPORTS_FILE)
     if 'pib' in present:
         values['pib'] = draw(_PIB)
     if 'tpm' in present:
@@ -381,9 +396,9 @@ def _filespec(draw):
 def _case(draw):
     return {'files': [draw(st.one_of(st.none(), _filespec())) for _ in range(3)],
             # (a variable may be present but EMPTY - `NDN_CLIENT_TRANSPORT= app`: it is present, so it is the value used)
-            'env': {'transport': draw(st.one_of(st.none(), _TRANSPORTS, st.just(''))),
-                    'pib': draw(st.one_of(st.none(), _PIB, _PIB, st.just({'scheme': '', 'loc': 'none', 'bare': True}))),
-                    'tpm': draw(st.one_of(st.none(), _TPM, _TPM, st.just({'scheme': '', 'loc': 'none', 'bare': True})))},
+            'env': {'transport': draw(st.one_of(st.none(), _TRANSPORTS_ENV, st.just(''))),
+                    'pib': draw(st.one_of(st.none(), _PIB_ENV, _PIB_ENV, st.just({'scheme': '', 'loc': 'none', 'bare': True}))),
+                    'tpm': draw(st.one_of(st.none(), _TPM_ENV, _TPM_ENV, st.just({'scheme': '', 'loc': 'none', 'bare': True})))},
             'default_exists': {'pib': [draw(st.booleans()), draw(st.booleans())], 'tpm': [draw(st.booleans()), draw(st.booleans())]},
             'open_keychain': draw(st.booleans()), 'reread': draw(st.sampled_from([None, None, 0, 5])),
             'symlink': draw(st.sampled_from([False, False, True])), 'late_env': draw(st.sampled_from([False, False, True])),
